@@ -21,7 +21,8 @@ func init() {
 			"(C) routing goes straight to the persistent store: the caching store delegates LookupBackend purely and keeps no state. " +
 			"Both loops of the selection (backends × prefixes) are left only when their range is exhausted. " +
 			"The store call that records liveness runs under the handler's context or the long-poll window derived from it once, outside the loop. " +
-			"(N, second part) the lookup is keyed by the decoded r.URL.Path; (L, second part) every successful registerBackendAsSeen has written the tracker with time.Now().",
+			"(N, second part) the lookup is keyed by the decoded r.URL.Path; (L, second part) every successful registerBackendAsSeen has written the tracker with time.Now()." +
+			" (L, third part) the store's list call returns only after registerBackendAsSeen ran, under the caller's context.",
 		Assumptions: []string{"datastore queries return the registered backends", "time.Since is monotone"},
 		Run:         runC18,
 	})
